@@ -95,6 +95,34 @@ func nodeFacts(x *X) error {
 	}
 	x.Bool("dispatchingHoldsRefused", hold)
 
+	// EpidemicRouting.DispatchingAllowed: the gate. Does it let a bundle through whose destination (the stored
+	// routing/epidemic/destination) is a directly connected peer, before it looks at the sent list?
+	eg, err := x.Func(routingDir, "EpidemicRouting", "DispatchingAllowed")
+	if err != nil {
+		return err
+	}
+	egSk := x.Skeleton(eg)
+	x.StrList("epidemicGateSkeleton", egSk)
+	gateDirect := false
+	for i, l := range egSk {
+		if strings.TrimSpace(l) == "if len(er.c.senderForDestination(dst.(bpv7.EndpointID))) > 0" &&
+			i+1 < len(egSk) && strings.TrimSpace(egSk[i+1]) == "return true" {
+			// it has to come before the sent list is consulted
+			for j := i + 1; j < len(egSk); j++ {
+				if strings.Contains(egSk[j], "er.clasForBundle(bp, false)") {
+					gateDirect = true
+				}
+			}
+		}
+	}
+	x.Bool("epidemicGateServesDirect", gateDirect)
+	// EpidemicRouting.NotifyNewBundle writes the destination property the gate reads
+	en, err := x.Func(routingDir, "EpidemicRouting", "NotifyNewBundle")
+	if err != nil {
+		return err
+	}
+	x.StrList("epidemicNotifySkeleton", x.Skeleton(en))
+
 	// BundleDescriptor.Sync: the three-way rule and the pending expression
 	sy, err := x.Func(routingDir, "BundleDescriptor", "Sync")
 	if err != nil {
